@@ -126,6 +126,9 @@ func Reach(starts []Pt, o Opts) Result {
 func Returns(fn *ssa.Function) []*ssa.Return {
 	var out []*ssa.Return
 	for _, b := range fn.Blocks {
+		if b == fn.Recover {
+			continue // only entered after a recovered panic, never from the normal CFG
+		}
 		for _, in := range b.Instrs {
 			if r, ok := in.(*ssa.Return); ok {
 				out = append(out, r)
